@@ -125,6 +125,7 @@ impl Model {
             cutoff: CutoffSpec::Default,
             cutoff_set: false,
             had_noneq_cutoff: false,
+            maybe_history: vec![],
             value: None,
             last_run: None,
             last_changed: None,
@@ -669,8 +670,10 @@ impl Model {
                 // under every combination
                 let stamps = |n: &crate::model::MNode| -> Vec<Option<u32>> {
                     let mut v = vec![n.last_changed];
-                    if Self::opt_gt(n.maybe_changed, n.last_changed) {
-                        v.push(n.maybe_changed);
+                    for r in n.maybe_history.iter() {
+                        if Self::opt_gt(Some(*r), n.last_changed) {
+                            v.push(Some(*r));
+                        }
                     }
                     v
                 };
@@ -745,9 +748,13 @@ impl Model {
         n.awaiting_invoke = false;
         if changed {
             n.last_changed = Some(round);
+            n.maybe_history.clear();
         }
         if maybe {
             n.maybe_changed = Some(round);
+            if n.maybe_history.last() != Some(&round) {
+                n.maybe_history.push(round);
+            }
         }
     }
 
